@@ -181,9 +181,28 @@ structure NsRec where
   insts   : List InstRec := []
   deriving DecidableEq, Repr, Inhabited
 
+/-- a user-defined instance-write provider (subclass of InstanceWriteProvider registered for one class in one
+    namespace) of the kind that validates and then delegates to the default implementation: it rejects a request
+    with `exc` when the value of the property / keybinding `trigger` is one of the listed strings, BEFORE calling
+    `super()`.  (A provider that changes the repository and then raises is outside what the mock can promise.) -/
+structure UserProv where
+  ns        : Name
+  cls       : Name
+  trigger   : Name
+  rejCreate : List Name
+  rejModify : List Name
+  rejDelete : List Name
+  exc       : PyExc
+  deriving DecidableEq, Repr, Inhabited
+
 /-- `InMemoryRepository._repository` -/
 structure State where
   nss : List NsRec
+  /-- namespaces for which the CIM_Namespace provider is registered (provider registry: not repository content,
+      never changed by the operations of the property; set by `Cmd.installNsProvider`) -/
+  nsProv : List Name := []
+  /-- registered user-defined instance-write providers (provider registry) -/
+  userProvs : List UserProv := []
   deriving DecidableEq, Repr, Inhabited
 
 /-! ### the monad: state survives exceptions -/
@@ -229,7 +248,7 @@ def findNs (s : State) (ns : Name) : Option NsRec := s.nss.find? (fun r => nameE
 
 /-- replace the record of namespace `ns` (the namespace dict entry keeps its position) -/
 def putNs (s : State) (ns : Name) (r : NsRec) : State :=
-  { nss := s.nss.map (fun x => if nameEq x.name ns then r else x) }
+  { s with nss := s.nss.map (fun x => if nameEq x.name ns then r else x) }
 
 /-- mirrors _baseprovider.py: BaseProvider.validate_namespace -/
 def validateNs (ns : Name) : M Unit := fun s =>
@@ -319,7 +338,7 @@ def addNamespace (ns0 : Name) : M Unit := do
   let s ← getS
   if isInterop ns && s.nss.any (fun r => isInterop r.name) then raise (cim cimErrAlreadyExists)
   else if (findNs s ns).isSome then raise (cim cimErrAlreadyExists)
-  else setS { nss := s.nss ++ [{ name := ns }] }
+  else setS { s with nss := s.nss ++ [{ name := ns }] }
 
 /-- mirrors _baseprovider.py: BaseProvider.remove_namespace -/
 def removeNamespace (ns0 : Name) : M Unit := do
@@ -330,7 +349,7 @@ def removeNamespace (ns0 : Name) : M Unit := do
   | some r =>
     if isInterop ns then raise (cim cimErrInvalidNamespace)
     else if !(r.classes.isEmpty && r.quals.isEmpty && r.insts.isEmpty) then raise (cim cimErrNamespaceNotEmpty)
-    else setS { nss := s.nss.filter (fun x => !nameEq x.name ns) }
+    else setS { s with nss := s.nss.filter (fun x => !nameEq x.name ns) }
 
 /-! ### classes -/
 
@@ -561,7 +580,97 @@ def createProvider (ns : Name) (cc : ClassRec) (i : Inst) : M Unit :=
     else createSingle ns cc i
   else createSingle ns cc i
 
-/-- mirrors _providerdispatcher.py: ProviderDispatcher.CreateInstance (then the default provider) -/
+/-! ### the CIM_Namespace provider (namespaces as instances of CIM_Namespace in the Interop namespace) -/
+
+def nsClassName : Name := namespaceClassname.toList
+def pnName : Name := "Name".toList
+def pnCreationClassName : Name := "CreationClassName".toList
+
+/-- mirrors _providerregistry.py: ProviderRegistry.get_registered_provider for 'instance-write': the
+    CIM_Namespace provider answers for class CIM_Namespace in the namespaces it was registered for -/
+def usesNsProvider (s : State) (ns cls : Name) : Bool := nmem ns s.nsProv && nameEq cls nsClassName
+
+/-- the `else` branch of CIMNamespaceProvider.CreateInstance: an instance of CIM_Namespace (this class only) in the
+    Interop namespace whose `Name` keybinding names the namespace (after the fix of `_get_instances`) -/
+def nsInstExists (r : NsRec) (newNs : Name) : Bool :=
+  r.insts.any (fun x => nameEq x.path.cls nsClassName &&
+    (match x.path.keys.find? (fun e => nameEq e.1 pnName) with
+     | some (_, .sc (.str v)) => nameEq v newNs
+     | _ => false))
+
+/-- `self.cimrepository.remove_namespace(new_namespace)` of the compensation (the namespace was just added) -/
+def dropNamespace (ns : Name) : M Unit := fun s =>
+  ({ s with nss := s.nss.filter (fun x => !nameEq x.name ns) }, .ok ())
+
+/-- "Create the new namespace in the CIM repository, if needed", else reject a second CIM_Namespace instance for
+    an existing namespace -/
+def nsProvPrepare (ns newNs : Name) (added : Bool) : M Unit :=
+  if added then addNamespace newNs
+  else getNs ns >>= fun r => if nsInstExists r newNs then raise (cim cimErrInvalidParameter) else pure ()
+
+/-- `try: return super().CreateInstance(...) except Exception: if namespace_added: remove it; raise` -/
+def nsProvFinish (ns : Name) (cc : ClassRec) (i : Inst) (newNs : Name) (added : Bool) : M Unit :=
+  tryCatch (createProvider ns cc i) (fun e =>
+    (if added then dropNamespace newNs else pure ()) >>= fun _ => raise e)
+
+/-- mirrors _namespaceprovider.py: CIMNamespaceProvider.CreateInstance (after the fixes: the namespace added is
+    removed again when the creation of the instance fails with ANY exception).  `i` has passed the dispatcher. -/
+def nsProvCreate (ns : Name) (cc : ClassRec) (i : Inst) : M Unit := do
+  if !isInterop ns then raise (cim cimErrInvalidParameter)
+  else
+    match findPropV i.props pnName, findPropV i.props pnCreationClassName with
+    | none, _ => raise (cim cimErrInvalidParameter)
+    | _, none => raise (cim cimErrInvalidParameter)
+    | some pn, some pc =>
+      match pn.val with
+      | .sc (.str raw) =>
+        let newNs := stripSlashes raw
+        -- `new_instance['Name'] = new_namespace`: a new string property under the literal name 'Name'
+        let props := i.props.map (fun p =>
+          if nameEq p.name pnName then ({ name := pnName, ty := tyString, isArr := false, val := .sc (.str newNs) } : PropV)
+          else p)
+        match pc.val with
+        | .sc (.str ccn) =>
+          if !nameEq ccn i.cls then raise (cim cimErrInvalidParameter)
+          else
+            getS >>= fun s =>
+              nsProvPrepare ns newNs (findNs s newNs).isNone >>= fun _ =>
+                nsProvFinish ns cc { i with props := props } newNs (findNs s newNs).isNone
+        | _ => raise .attributeError                -- `None.lower()` / `Uint32.lower()`
+      | _ => raise .attributeError                  -- `None.strip('/')`
+
+/-- mirrors _namespaceprovider.py: CIMNamespaceProvider.DeleteInstance (`k` = dict key of the stored instance,
+    `p` = the request path whose `Name` keybinding names the namespace) -/
+def nsProvDelete (ns : Name) (p : Path) (k : PKey) : M Unit := do
+  match p.keys.find? (fun e => nameEq e.1 pnName) with
+  | some (_, .sc (.str target)) =>
+    if isInterop target then raise (cim cimErrInvalidParameter)
+    else removeNamespace target >>= fun _ => inNs ns (instDeleteR k)
+  | some _ => raise .typeError                      -- `namespace in NocaseList` / `.strip` on a non-string
+  | none => raise .keyError
+
+/-! ### user-defined providers -/
+
+def findUserProv (s : State) (ns cls : Name) : Option UserProv :=
+  s.userProvs.find? (fun u => nameEq u.ns ns && nameEq u.cls cls)
+
+def strOf : Val → Option Name
+  | .sc (.str v) => some v
+  | _ => none
+
+def triggered (rej : List Name) (v : Option Val) : Bool :=
+  match v.bind strOf with
+  | some x => rej.contains x
+  | none => false
+
+/-- the provider's CreateInstance: reject, else `super().CreateInstance(namespace, new_instance)` -/
+def userProvCreate (u : UserProv) (ns : Name) (cc : ClassRec) (i : Inst) : M Unit :=
+  if triggered u.rejCreate ((findPropV i.props u.trigger).map (·.val)) then raise u.exc
+  else createProvider ns cc i
+
+def keyOf (keys : List (Name × Val)) (n : Name) : Option Val := (keys.find? (fun e => nameEq e.1 n)).map (·.2)
+
+/-- mirrors _providerdispatcher.py: ProviderDispatcher.CreateInstance (then the registered or the default provider) -/
 def createInstance (ns : Name) (i0 : Inst) : M Unit := do
   validateNs ns
   let r ← getNs ns
@@ -569,7 +678,12 @@ def createInstance (ns : Name) (i0 : Inst) : M Unit := do
   | none => raise (cim cimErrInvalidClass)
   | some cc =>
     if !(i0.props.all (validProp cc)) then raise (cim cimErrInvalidParameter)
-    else createProvider ns cc { i0 with props := adjustNames cc i0.props }
+    else do
+      let s ← getS
+      if usesNsProvider s ns i0.cls then nsProvCreate ns cc { i0 with props := adjustNames cc i0.props }
+      else match findUserProv s ns i0.cls with
+        | some u => userProvCreate u ns cc { i0 with props := adjustNames cc i0.props }
+        | none => createProvider ns cc { i0 with props := adjustNames cc i0.props }
 
 /-- `CIMInstance.update(properties)`: replace existing (NocaseDict keeps the old key's position, new name),
     append new -/
@@ -618,8 +732,43 @@ def modifyProvider (ns : Name) (cc : ClassRec) (stored : InstRec) (props : List 
     else inNs ns (instUpdateR rec')
   else inNs ns (instUpdateR rec')
 
-/-- mirrors ProviderDispatcher.ModifyInstance (PropertyList=None), then the default provider -/
-def modifyInstance (ns : Name) (p : Path) (i0 : Inst) : M Unit := do
+/-- `property_list`: the names of PropertyList without (case-insensitive) duplicates, first occurrence kept -/
+def dedupNames : List Name → List Name → List Name
+  | [], acc => acc
+  | n :: rest, acc => if nmem n acc then dedupNames rest acc else dedupNames rest (acc ++ [n])
+
+/-- "Add class default values for properties not specified in ModifiedInstance": for each name of the property
+    list that the modified instance lacks, a property built from the class declaration with value NULL (the
+    modelled classes declare no default values).  A key property cannot be defaulted: NULL differs from the stored
+    key value (CIM_ERR_INVALID_PARAMETER); KeyError when the stored instance lacks the property (`instance[pn]`). -/
+def addDefaults (cc : ClassRec) (stored : InstRec) : List Name → List PropV → Except PyExc (List PropV)
+  | [], acc => .ok acc
+  | pn :: rest, acc =>
+    if (findPropV acc pn).isSome then addDefaults cc stored rest acc
+    else
+      match findPropDecl cc pn with
+      | none => .error .keyError
+      | some d =>
+        if isKeyProp d then
+          match findPropV stored.props pn with
+          | none => .error .keyError
+          | some sp => if sp.val == .null then
+                         addDefaults cc stored rest (acc ++ [{ name := d.d.name, ty := d.d.ty, isArr := d.d.isArr, val := .null }])
+                       else .error (cim cimErrInvalidParameter)
+        else addDefaults cc stored rest (acc ++ [{ name := d.d.name, ty := d.d.ty, isArr := d.d.isArr, val := .null }])
+
+/-- "Reduce modified_instance to have just the properties to be modified" -/
+def applyPropertyList (cc : ClassRec) (stored : InstRec) (pl : Option (List Name)) (props : List PropV) :
+    Except PyExc (List PropV) :=
+  match pl with
+  | none => .ok props
+  | some l =>
+    match addDefaults cc stored (dedupNames l []) props with
+    | .error e => .error e
+    | .ok ps => .ok (ps.filter (fun p => nmem p.name l))
+
+/-- mirrors ProviderDispatcher.ModifyInstance (with PropertyList), then the registered or the default provider -/
+def modifyInstance (ns : Name) (p : Path) (i0 : Inst) (pl : Option (List Name) := none) : M Unit := do
   if !nameEq i0.cls p.cls then raise (cim cimErrInvalidParameter)
   else do
     validateNs ns
@@ -630,11 +779,21 @@ def modifyInstance (ns : Name) (p : Path) (i0 : Inst) : M Unit := do
       match findInst r (mkKey ns p.cls p.keys) with
       | none => raise (cim cimErrNotFound)
       | some stored =>
-        if !(i0.props.all (fun pv => validProp cc pv &&
+        if (match pl with | some l => l.any (fun pn => (findPropDecl cc pn).isNone) | none => false) then
+          raise (cim cimErrInvalidParameter)
+        else if !(i0.props.all (fun pv => validProp cc pv &&
               !((match findPropDecl cc pv.name with | some d => isKeyProp d | none => false) &&
                 valueChanged stored pv))) then
           raise (cim cimErrInvalidParameter)
-        else modifyProvider ns cc stored (adjustNames cc i0.props)
+        else do
+          let props ← liftE (applyPropertyList cc stored pl i0.props)
+          let s ← getS
+          if usesNsProvider s ns i0.cls then raise (cim cimErrNotSupported)   -- CIMNamespaceProvider.ModifyInstance
+          else match findUserProv s ns i0.cls with
+            | some u =>
+              if triggered u.rejModify (keyOf p.keys u.trigger) then raise u.exc
+              else modifyProvider ns cc stored (adjustNames cc props)
+            | none => modifyProvider ns cc stored (adjustNames cc props)
 
 /-- delete the copy of the instance in one namespace if it is (still) there -/
 def instDeleteIfPresentR (k : PKey) (r : NsRec) : Except PyExc NsRec :=
@@ -665,7 +824,14 @@ def deleteInstance (ns : Name) (p : Path) : M Unit := do
   | some cc =>
     match findInst r (mkKey ns p.cls p.keys) with
     | none => raise (cim cimErrNotFound)
-    | some stored => deleteProvider ns cc stored (mkKey ns p.cls p.keys)
+    | some stored => do
+      let s ← getS
+      if usesNsProvider s ns p.cls then nsProvDelete ns p (mkKey ns p.cls p.keys)
+      else match findUserProv s ns p.cls with
+        | some u =>
+          if triggered u.rejDelete (keyOf p.keys u.trigger) then raise u.exc
+          else deleteProvider ns cc stored (mkKey ns p.cls p.keys)
+        | none => deleteProvider ns cc stored (mkKey ns p.cls p.keys)
 
 /-- mirrors _mainprovider.py: MainProvider.DeleteClass (after the fix: the deletion loop is guarded by
     snapshot/restore) -/
@@ -682,6 +848,22 @@ def deleteClass (ns : Name) (n : Name) : M Unit := do
         let paths := (rc.insts.filter (fun i => nmem i.path.cls sub)).map (·.path)
         forM_ (fun (p : Path) => deleteInstance (p.ns.getD ns) p) paths
         classDelete ns cl) (subtree r n))
+
+/-- the ORIGINAL MainProvider.DeleteClass: the same loop without snapshot/restore (kept to state what the fix repairs:
+    `C11.deleteClass_without_restore_not_atomic`) -/
+def deleteClassNoRestore (ns : Name) (n : Name) : M Unit := do
+  validateNs ns
+  let r ← getNs ns
+  if !hasClass r n then raise (cim cimErrNotFound)
+  else
+    forM_ (fun cl => do
+      let rc ← getNs ns
+      if !hasClass rc n then raise (cim cimErrInvalidClass)
+      else do
+        let sub := subtree rc n
+        let paths := (rc.insts.filter (fun i => nmem i.path.cls sub)).map (·.path)
+        forM_ (fun (p : Path) => deleteInstance (p.ns.getD ns) p) paths
+        classDelete ns cl) (subtree r n)
 
 /-! ### qualifier declarations -/
 
@@ -808,10 +990,58 @@ def compileMofNoRestore (ns : Name) (ps : List Prod) : M Unit := do
   validateNs ns
   forM_ (mofProd ns) ps
 
-/-- mirrors FakedWBEMConnection.compile_mof_string -/
-def compileMof (ns : Name) (ps : List Prod) : M Unit := do
-  validateNs ns
-  withRollback (forM_ (mofProd ns) ps)
+/-! #### compiler directives: `#pragma namespace`, `#pragma include`
+
+mirrors _mof_compiler.py: p_compilerDirective, MOFCompiler.compile_file / compile_string (the target namespace is a
+field of the parser: an include file starts in the current target namespace and a `#pragma namespace` inside it stays in
+effect after the include returns). -/
+
+inductive MofItem where
+  | prod (p : Prod)
+  | pragmaNamespace (ns : Name)       -- `#pragma namespace ("ns")`
+  | badPragmaNamespace                -- `#pragma namespace ("//host/ns")`: MOFParseError
+  | otherPragma                       -- any other pragma: ignored
+  | include (items : List MofItem)    -- `#pragma include ("file")` of an existing file with these productions
+  deriving Inhabited
+
+/-- one production in the current target namespace.  When that namespace does not exist the compiler asks
+    `WBEMServer.create_namespace` to create it, which fails with ModelError on a mock without the server classes
+    (K only generates this when there is no Interop namespace; a full mock server is covered by probes); an instance
+    production fails earlier with MOFRepositoryError (GetClass answers CIM_ERR_INVALID_NAMESPACE). -/
+def mofProdIn (ns : Name) (p : Prod) : M Unit := fun s =>
+  match findNs s ns with
+  | some _ => mofProd ns p s
+  | none =>
+    match p with
+    | .cls _ => (s, .error .modelError)
+    | .qual _ => (s, .error .modelError)
+    | .inst _ => (s, .error .mofRepositoryError)
+    | .syntaxError => (s, .error .mofParseError)
+    | .missingInclude => (s, .error .osError)
+
+mutual
+/-- result: the target namespace after the item -/
+def mofItem (ns : Name) : MofItem → M Name
+  | .prod p => mofProdIn ns p >>= fun _ => pure ns
+  | .pragmaNamespace n => pure n
+  | .badPragmaNamespace => raise .mofParseError
+  | .otherPragma => pure ns
+  | .include items => mofItems ns items
+def mofItems (ns : Name) : List MofItem → M Name
+  | [] => pure ns
+  | x :: xs => mofItem ns x >>= fun ns' => mofItems ns' xs
+end
+
+/-- compile with directives WITHOUT the snapshot/restore of the fix (original code) -/
+def compileMofItemsNoRestore (ns : Name) (items : List MofItem) : M Unit :=
+  validateNs ns >>= fun _ => mofItems ns items >>= fun _ => pure ()
+
+/-- mirrors FakedWBEMConnection.compile_mof_string / compile_mof_file for MOF with compiler directives -/
+def compileMofItems (ns : Name) (items : List MofItem) : M Unit :=
+  validateNs ns >>= fun _ => withRollback (mofItems ns items >>= fun _ => pure ())
+
+/-- mirrors FakedWBEMConnection.compile_mof_string (MOF without compiler directives) -/
+def compileMof (ns : Name) (ps : List Prod) : M Unit := compileMofItems ns (ps.map MofItem.prod)
 
 /-! ### operations and histories -/
 
@@ -822,14 +1052,15 @@ inductive Op where
   | setQualifier (ns : Name) (q : QualDecl)
   | deleteQualifier (ns : Name) (n : Name)
   | createInstance (ns : Name) (i : Inst)
-  | modifyInstance (ns : Name) (p : Path) (i : Inst)
+  | modifyInstance (ns : Name) (p : Path) (i : Inst) (pl : Option (List Name))
   | deleteInstance (ns : Name) (p : Path)
   | addNamespace (ns : Name)
   | removeNamespace (ns : Name)
   | addObjects (ns : Name) (objs : List Obj)
   | addObject (ns : Name) (o : Obj)
   | compileMof (ns : Name) (ps : List Prod)
-  deriving Repr, Inhabited
+  | compileMofItems (ns : Name) (items : List MofItem)
+  deriving Inhabited
 
 def Op.run : Op → M Unit
   | .createClass ns c => Atomic.createClass ns c
@@ -838,13 +1069,14 @@ def Op.run : Op → M Unit
   | .setQualifier ns q => Atomic.setQualifier ns q
   | .deleteQualifier ns n => Atomic.deleteQualifier ns n
   | .createInstance ns i => Atomic.createInstance ns i
-  | .modifyInstance ns p i => Atomic.modifyInstance ns p i
+  | .modifyInstance ns p i pl => Atomic.modifyInstance ns p i pl
   | .deleteInstance ns p => Atomic.deleteInstance ns p
   | .addNamespace ns => Atomic.addNamespace ns
   | .removeNamespace ns => Atomic.removeNamespace ns
   | .addObjects ns objs => Atomic.addObjects ns objs
   | .addObject ns o => do validateNs ns; Atomic.addObject ns o
   | .compileMof ns ps => Atomic.compileMof ns ps
+  | .compileMofItems ns items => Atomic.compileMofItems ns items
 
 /-- one step of a history: new state and the outcome (`none` = returned normally) -/
 def step (s : State) (op : Op) : State × Option PyExc :=
@@ -855,6 +1087,73 @@ def step (s : State) (op : Op) : State × Option PyExc :=
 def runOps (s : State) : List Op → List (State × Option PyExc)
   | [] => []
   | op :: ops => let r := step s op; r :: runOps r.1 ops
+
+/-! ### histories with set-up commands that are not entry points of the property -/
+
+def fixedNsProps : List (Name × Name) :=
+  [(pnName, []), (pnCreationClassName, nsClassName),
+   ("ObjectManagerName".toList, objectManagerName.toList),
+   ("ObjectManagerCreationClassName".toList, objectManagerCreationClassName.toList),
+   ("SystemName".toList, systemName.toList),
+   ("SystemCreationClassName".toList, systemCreationClassName.toList)]
+
+/-- mirrors _namespaceprovider.py: CIMNamespaceProvider.create_cimnamespace_instance: `CIMInstance.from_class` with
+    the fixed property values (pywbem_mock/config.py), every other property of the class NULL -/
+def nsInstanceFor (cc : ClassRec) (target : Name) : Inst :=
+  { cls := cc.name,
+    props := cc.props.map (fun d =>
+      { name := d.d.name, ty := d.d.ty, isArr := d.d.isArr,
+        val := if nameEq d.d.name pnName then .sc (.str target)
+               else match fixedNsProps.find? (fun e => nameEq e.1 d.d.name) with
+                    | some (_, v) => .sc (.str v)
+                    | none => .null }) }
+
+/-- mirrors FakedWBEMConnection.register_provider(CIMNamespaceProvider(...), namespaces=[interop]) incl.
+    post_register_setup: a CIM_Namespace instance is created (through CreateInstance, i.e. through the provider) for
+    every namespace of the repository that has none.  Not an entry point of the property: no atomicity is claimed. -/
+def installNsProvider (interop : Name) : M Unit := do
+  validateNs interop
+  let r ← getNs interop
+  match findClass r nsClassName with
+  | none => raise .valueError
+  | some cc => do
+    let s ← getS
+    setS { s with nsProv := s.nsProv ++ [interop] }
+    let have_ := (r.insts.filter (fun x => nameEq x.path.cls nsClassName)).filterMap (fun x =>
+      match findPropV x.props pnName with | some { val := .sc (.str v), .. } => some v | _ => none)
+    -- `conn.find_interop_namespace()`: the name under which the namespace is stored
+    forM_ (fun n => createInstance r.name (nsInstanceFor cc n))
+      ((s.nss.map (·.name)).filter (fun n => !nmem n have_))
+
+/-- mirrors FakedWBEMConnection.register_provider for a user-defined instance-write provider (the class must
+    exist in the namespace) -/
+def installUserProvider (u : UserProv) : M Unit := do
+  validateNs u.ns
+  let r ← getNs u.ns
+  if !hasClass r u.cls then raise .valueError
+  else do
+    let s ← getS
+    setS { s with userProvs := s.userProvs ++ [u] }
+
+inductive Cmd where
+  | op (o : Op)
+  | installNsProvider (interop : Name)
+  | installUserProvider (u : UserProv)
+  deriving Inhabited
+
+def Cmd.run : Cmd → M Unit
+  | .op o => o.run
+  | .installNsProvider ns => Atomic.installNsProvider ns
+  | .installUserProvider u => Atomic.installUserProvider u
+
+def stepCmd (s : State) (c : Cmd) : State × Option PyExc :=
+  match c.run s with
+  | (s', .ok _) => (s', none)
+  | (s', .error e) => (s', some e)
+
+def runCmds (s : State) : List Cmd → List (State × Option PyExc)
+  | [] => []
+  | c :: cs => let r := stepCmd s c; r :: runCmds r.1 cs
 
 end Pywbem.Model.Atomic
 
